@@ -50,6 +50,14 @@ def check(run):
                     p += [dict(a, n="a", q=True), dict(m, n="a", q=True), dict(b, n="a", q=True), dict(b, n="a", q=False)]
                     trip.append(p)
     plans += trip if not run.quick() else run.rng.sample(trip, 800)
+    # Range whose callback removes a pair / adds a pair (with evictions) at the first pair it is shown
+    for cont in ([(1, 11)], [(1, 11), (2, 12)], [(1, 12), (2, 11), (3, 13)], [(1, 11), (2, 12), (3, 13), (4, 14), (5, 15)]):
+        nk = 5
+        for k in range(1, nk + 1):
+            p = [dict(op="Reset", n="a", k=0, v=0, nk=nk, nv=nk)] + [dict(op="Add", n="a", k=a, v=b, q=True) for a, b in cont]
+            plans.append(p + [dict(op="RangeDel", n="a", k=k, v=0)])
+            for v in (11, 13, 15):
+                plans.append(p + [dict(op="RangeAdd", n="a", k=k, v=v)])
     # large bimaps (hundreds of pairs: whatever a map or a Bimap does differently when big), read back in full only at chosen points:
     # fill, clone, clear / drain through every size, refill; both copies observed
     for N in ((129, 140, 300) if run.quick() else (64, 129, 140, 300, 600, 1100)):
